@@ -2,6 +2,7 @@
 //! addressing walk (see `vh::cfgwalk`).  stdin: one JSON object per line
 //!   {"toml": "...", "admin": ["SHOW DATABASES", ..]?, "probe": {...}?, "show": bool?}
 //!   {"op": "regex", "patterns": ["..", ..]}      -> {"ok": [bool, ..]}   (regex crate verdicts)
+//!   {"op": "defaults"}                            -> General::default(), Pool::default(), User::default() as JSON
 //!   {"op": "tls", "paths": ["..", ..]}           -> {"certs": [n..], "keys": [n..]}  (items load_certs / load_keys return, -1 = Err)
 //! stdout: one JSON object per line.  argv[1]: directory for the temporary config file.
 use serde_json::{json, Value};
@@ -40,6 +41,11 @@ fn main() {
                 .map(|a| a.iter().map(|p| regex::Regex::new(p.as_str().unwrap_or("")).is_ok()).collect())
                 .unwrap_or_default();
             json!({"ok": oks})
+        } else if case.get("op").and_then(|x| x.as_str()) == Some("defaults") {
+            // the other way of defaulting: the Default impls of the structs
+            json!({"general": serde_json::to_value(pgcat::config::General::default()).unwrap_or(Value::Null),
+                   "pools": serde_json::to_value(pgcat::config::Pool::default()).unwrap_or(Value::Null),
+                   "users": serde_json::to_value(pgcat::config::User::default()).unwrap_or(Value::Null)})
         } else if case.get("op").and_then(|x| x.as_str()) == Some("tls") {
             // the verdicts of the real loaders on files (file system and rustls_pemfile are environment)
             // -1 = the loader answers Err, otherwise the number of items it returns
